@@ -304,6 +304,13 @@ def run(ck):
                             seen_q = True
                             ck.judge(a.get("reverseStrand") == V("reverseStrand"), "C11.4", short(gi) + ":query-vector", where(gi, node),
                                      "the query vector follows the requested strand", found=T.show(x)[:160])
+                            ck.clause("C11.22", "the query vector of a correlation is the vector of the WHOLE molecule: it is reversed as a whole "
+                                                "for the reverse strand, so bin 0 of the reversed vector is the molecule's last label - a "
+                                                "vector cropped before the reversal (`end=...`) starts somewhere inside the molecule on the "
+                                                "reverse strand only, and every seed is off by the cropped length")
+                            windowed = [k for k in ("start", "end") if k in a and a[k] not in (C(0), C(None), T.NONE)]
+                            ck.judge(not windowed, "C11.22", short(gi) + ":query-vector:whole", where(gi, node),
+                                     "the query is vectorised without a window", found=T.show(x)[:160], required="getSequence(generator, reverseStrand)")
                     elif x[2] == V("reference"):
                         if not seen_r:
                             seen_r = True
@@ -380,6 +387,9 @@ def run(ck):
         if qv and rv:
             ck.judge(qv[0].get("reverseStrand") == self_attr("reverseStrand"), "C11.4", short(rf) + ":query-vector", where(rf, qv[1]),
                      "secondary query vector follows the strand", found=T.show(qv[0].get("reverseStrand", C(None))))
+            windowed2 = [k for k in ("start", "end") if k in qv[0] and qv[0][k] not in (C(0), C(None), T.NONE)]
+            ck.judge(not windowed2, "C11.22", short(rf) + ":query-vector:whole", where(rf, qv[1]),
+                     "the query is vectorised without a window in the refinement as well", found=str(sorted(qv[0])), required="no start / end")
             ck.judge(rv[0].get("reverseStrand", C(False)) == C(False), "C11.4", short(rf) + ":reference-vector", where(rf, rv[1]),
                      "secondary reference vector is never reversed", found=T.show(rv[0].get("reverseStrand", C(False))))
             break
